@@ -23,7 +23,7 @@ def vec_points(tier, elems=None, std=17, nonstd=True, ndebug=False, flavours=Non
                   ('fcv', 4, None, 'amc')]
         extra = [('NTR', 'vector', 0, 'u32', 'std'), ('TRnc', 'vector', 0, 'u32', 'realloc'), ('TC', 'small', 4, 'u8', 'amc'),
                  ('NTR', 'small', 12, 'u64', 'std'), ('TC', 'fcv', 4, None, 'amc', 'UncheckedGrowingPolicy'),
-                 ('NTR', 'fcv', 4, 'u32', 'amc')]
+                 ('NTR', 'fcv', 4, 'u32', 'amc'), ('NTR', 'vector', 0, 'u32', 'realloc'), ('NTR', 'small', 3, 'u16', 'realloc')]
         iters = ('ptr', 'input')
     else:
         elems = elems or ['TC', 'TRnc', 'NTR', 'NTRtm', 'OptOut', 'MoveOnly']
